@@ -25,6 +25,7 @@ import (
 	"sort"
 	"strconv"
 	"strings"
+	"syscall"
 	"time"
 
 	"verif/harness/engx"
@@ -100,6 +101,18 @@ func Run(c *hx.Ctx) error {
 		for i := 0; i < n; i++ {
 			rr := r.Fork()
 			if only != "" && only != fmt.Sprint(i) {
+				continue
+			}
+			if i < 6 || i%25 == 24 {
+				// the sequencer's id-time loader against a merge / a full compaction
+				b := []string{"M", "C"}[i%2]
+				// (the third site is the second, nested read lock LoadIdTimes took through IsOrder before the
+				// fix: a reader standing there with a Rename waiting for the write lock never gets it)
+				site := []string{"tsspFile.LoadIdTimes:|before RLock f.mu", "idTimesLoader.loadFromTSSPFiles:|after deferred RUnlock files.lock",
+					"tsspFile.IsOrder:|before RLock f.mu"}[(i/2)%3]
+				if err := runLPReloadHistory(c, rr, i, b, site); err != nil {
+					return err
+				}
 				continue
 			}
 			if err := runLPHistory(c, rr, i); err != nil {
@@ -197,7 +210,25 @@ func runLockPointPart(c *hx.Ctx, n int) error {
 	run.Env = append(os.Environ(), "VERIF_SCRATCH="+filepath.Join(dir, "scratch"))
 	logf, _ := os.Create(filepath.Join(dir, "log.txt"))
 	run.Stdout, run.Stderr = logf, logf
-	err = run.Run()
+	err = run.Start()
+	if err == nil {
+		// (a history that does not end is reported by the child itself after 240 s; this is the
+		// last resort)
+		waitCh := make(chan error, 1)
+		go func() { waitCh <- run.Wait() }()
+		limit := 12 * time.Minute
+		if c.Tier == "thorough" {
+			limit = 40 * time.Minute
+		}
+		select {
+		case err = <-waitCh:
+		case <-time.After(limit):
+			_ = run.Process.Signal(syscall.SIGQUIT)
+			time.Sleep(2 * time.Second)
+			_ = run.Process.Kill()
+			err = fmt.Errorf("lock-point run did not end within %s", limit)
+		}
+	}
 	logf.Close()
 	if err != nil {
 		tail, _ := os.ReadFile(filepath.Join(dir, "log.txt"))
